@@ -505,6 +505,45 @@ fn case_fn(case: &mut Case) -> CaseResult {
         }
     }
     check_resolvers(case, &program, &r, &detail)?;
+    // input objects: "readonly fields" — every property is readonly and every list inside a field type is
+    // a readonly array (an input value may well be a frozen / `as const` array, which TypeScript does not
+    // accept where a mutable `T[]` is declared; membership of plain values cannot see this)
+    {
+        fn mutable_array(ty: &tsmini::Ty) -> bool {
+            use tsmini::Ty::*;
+            match ty {
+                Array(_) => true,
+                ReadonlyArray(t) | Paren(t) | Keyof(t) => mutable_array(t),
+                Union(ts) | Inter(ts) => ts.iter().any(mutable_array),
+                Obj(ps) => ps.iter().any(|p| mutable_array(&p.ty)),
+                _ => false,
+            }
+        }
+        let schema_scope = program.modules["Schema"].clone();
+        for t in [Target::OperationInput, Target::ResolverInput] {
+            let Some(ns) = schema_scope.namespaces.get(t.ns()) else { continue };
+            for io in gs.schema.of_kind(Kind::Input) {
+                // the declaration may be under a local (renamed) name: look the export up
+                let local = ns.exports.get(&io.name).cloned().unwrap_or_else(|| io.name.clone());
+                let Some(decl) = ns.types.get(&local) else { continue };
+                if let tsmini::Ty::Obj(props) = &decl.ty {
+                    case.evals(props.len() as u64);
+                    for p in props {
+                        if !p.readonly {
+                            return Err(Failure::new("input-field-not-readonly", format!("{}.{}: field {} is not declared readonly", t.ns(), io.name, p.key), detail.clone()));
+                        }
+                        if mutable_array(&p.ty) {
+                            return Err(Failure::new(
+                                "input-list-not-readonly",
+                                format!("{}.{}: the type of field {} contains a mutable array type (a readonly array value would be rejected)", t.ns(), io.name, p.key),
+                                detail.clone(),
+                            ));
+                        }
+                    }
+                }
+            }
+        }
+    }
     // runtime enum constants
     if runtime {
         let stmts = tsmini::parse_module(&schema_dts).unwrap();
